@@ -31,7 +31,8 @@ Init0 ==
    pend |-> <<>>,                                            \* [<<ep, peer>> -> queue of valid tags / -1 fault marks]
    causes |-> <<>>,                                          \* [<<ep, peer>> -> queue of the errors injected on the read side]
    faulted |-> {}, disturbed |-> {}, wfault |-> <<>>,        \* endpoints with read faults / any disturbance / write fault seq
-   closing |-> FALSE, closeRet |-> FALSE, consumerStopped |-> FALSE,
+   closing |-> FALSE, closeRet |-> FALSE, consumerStopped |-> FALSE, everHeld |-> FALSE,
+   quietLost |-> {},                                         \* <<ep, peer, tag>>: valid frames still undelivered when the node was seen idle
    calls |-> <<>>,                                           \* call records in invoke order
    ret |-> {},                                               \* calls that returned
    settled |-> {},                                           \* calls that had returned when the harness last saw the node idle
@@ -96,7 +97,7 @@ OnEvFrame(m, ev) ==
             ELSE IF idx # {} THEN Flag(m1, "C10.frames_lossless_and_in_order", ev)
                  ELSE Flag(m1, "C10.frame_event_without_valid_frame_fed", ev)
       q2 == IF idx = {} THEN q ELSE SubSeq(q, Min(idx) + 1, Len(q))
-      m3 == [m2 EXCEPT !.pend = Put(@, pk, q2)]
+      m3 == [m2 EXCEPT !.pend = Put(@, pk, q2), !.quietLost = @ \ {<<pk[1], pk[2], ev.tag>>}]
   IN IF ev.id = 0 /\ ev.autopilot = 3
      THEN [m3 EXCEPT !.apHb = Append(@, [ep |-> ev.ep, inst |-> ev.inst, sys |-> ev.sys, comp |-> ev.comp, seq |-> ev.seq, t |-> ev.t])]
      ELSE m3
@@ -130,6 +131,19 @@ OnEvClose(m, ev) ==
   IN [m3 EXCEPT !.closed = @ \cup {k}, !.pend = Put(@, pk, q2),
                 !.causes = Put(@, pk, IF marks = {} \/ cq = <<>> THEN cq ELSE Tail(cq)), !.disturbed = IF m.closing THEN @ ELSE @ \cup {ev.ep},
                 !.closeTimes = Append(@, [ep |-> ev.ep, inst |-> ev.inst, t |-> ev.t, seq |-> ev.seq, cause |-> ev.cause, closing |-> m.closing])]
+
+\* The node has been idle for a whole interval, its consumer never stopped, no goroutine ever held at a gate: what was fed
+\* to a channel that is still open and never saw a fault, over a transport that does not lose data, has had its chance.
+\* Remembered here, judged at the end (a frame that still arrives later is late, not lost).
+ReliableKinds == {"custom", "tcp_server", "tcp_client"}
+OnQuiesced(m, ev) ==
+  LET judged(pk) == LET insts == {k \in m.opened : k[1] = pk[1] /\ Get(m.instPeer, k, 0) = pk[2]}
+                    IN /\ m.kinds[pk[1] + 1] \in ReliableKinds
+                       /\ pk[1] \notin m.disturbed /\ pk[1] \notin m.faulted
+                       /\ Cardinality(insts) = 1 /\ insts \cap m.closed = {}
+      lost == UNION {{<<pk[1], pk[2], m.pend[pk][i]>> : i \in {j \in 1..Len(m.pend[pk]) : m.pend[pk][j] # -1}} :
+                       pk \in {x \in DOMAIN m.pend : judged(x)}}
+  IN IF m.consumerStopped \/ m.everHeld THEN m ELSE [m EXCEPT !.quietLost = @ \cup lost]
 
 OnEv(m, ev) ==
   CASE ev.type = "open" -> OnEvOpen(m, ev)
@@ -431,7 +445,11 @@ FinalAuto(m, ev) ==
       nearBoundary(k) == \E i \in 1..Len(hbT(k)), j \in 1..Len(reqs(k)) :
                             LET d == hbT(k)[i] - reqs(k)[j].t IN d > 30000 - 400 /\ d < 30000 + 400
       wanted(k) == FlattenSeq([i \in 1..nDue(k) |-> Streams])
-      okKey(k) == ~steadyKey(k) \/ nearBoundary(k) \/ (streams(k) = wanted(k) /\ Len(evs(k)) = nDue(k) /\ onTime(k))
+      \* scenarios that mute the wire (thousands of senders in one burst: requests may overflow the 64-item queue, which C13
+      \* allows) are judged on the stream-requested events alone: one per due heartbeat, none besides
+      okKey(k) == ~steadyKey(k) \/ nearBoundary(k)
+                  \/ IF m.conf.sr_events_only THEN Len(evs(k)) = nDue(k)
+                     ELSE (streams(k) = wanted(k) /\ Len(evs(k)) = nDue(k) /\ onTime(k))
       stray == {i \in 1..Len(m.sr) : <<m.sr[i].ep, m.sr[i].sys, m.sr[i].comp>> \notin keys}
       m2 == Check(m1, "C16.exactly_the_seven_stream_requests_once_per_sender", ~SrWanted(m) \/ \A k \in keys : okKey(k), ev)
       m3 == Check(m2, "C16.stream_requests_only_to_ardupilot_senders_on_their_channel", stray = {}, ev)
@@ -448,7 +466,8 @@ OnFinal(m, ev) ==
                    ev.conns_not_released = 0 /\ ev.serial_not_closed = 0, ev)
       m4c0 == Check(m4b, "C10.delivered_frames_stay_intact", ev.frames_changed_after_delivery = 0, ev)
       m4c == Check(m4c0, "C12.no_socket_left_open", ev.sockets_left = 0, ev)
-      m5 == Check(m4c, "C12.close_returns", initFailed \/ m.closeRet, ev)
+      m5a == Check(m4c, "C12.close_returns", initFailed \/ m.closeRet, ev)
+      m5 == Check(m5a, "C10.every_valid_frame_delivered", m.quietLost = {}, ev)
   IN IF initFailed THEN m5
      ELSE FinalIdle(FinalReconnect(FinalBacklog(FinalWriteFault(FinalFanout(FinalAuto(m5, ev), ev), ev), ev), ev), ev)
 
@@ -470,7 +489,8 @@ Step(m, ev) ==
     [] ev.e = "LMode" -> IF ev.mode \in {"refuse", "hang"} /\ Len(m.attempts) = 0
                          THEN [m EXCEPT !.unobservable = @ \cup {ev.ep}] ELSE m
     [] ev.e = "Consumer" -> IF ev.run THEN m ELSE [m EXCEPT !.consumerStopped = TRUE]
-    [] ev.e = "Quiesced" -> IF m.closing THEN m ELSE [m EXCEPT !.settled = m.ret]
+    [] ev.e = "Quiesced" -> IF m.closing THEN m ELSE OnQuiesced([m EXCEPT !.settled = m.ret], ev)
+    [] ev.e = "Held" -> [m EXCEPT !.everHeld = TRUE]
     [] ev.e = "CloseInv" -> [m EXCEPT !.closing = TRUE, !.tCloseInv = ev.t]
     [] ev.e = "CloseRet" -> [m EXCEPT !.closeRet = TRUE]
     [] ev.e = "Timeout" -> OnTimeout(m, ev)
